@@ -117,7 +117,14 @@ func VerifC02_BundleAdd() {
 	k := vr.Choice("inner", nMsgKinds)
 	vr.Tag("inner", msgKindNames[k])
 	ba := &BundleAdd{BundleID: vr.U32("bundle"), Flags: vr.U16("bflags"), Message: buildMessage(k)}
-	if vr.Bool("property") {
+	// up to two properties behind the first message kind, at most one behind the others (the
+	// product of message shapes and property lists runs past the path budget otherwise)
+	maxp := 1
+	if k == 0 {
+		maxp = 2
+	}
+	np := vr.IntRange("nprops", 0, maxp)
+	for i := 0; i < np; i++ {
 		p := NewBundlePropertyExperimenter()
 		p.ExperimenterID, p.ExperimenterType = vr.U32("expid"), vr.U32("exptype")
 		p.data = vr.Bytes("propdata", []int{0, 4, 3}[vr.Choice("propdatalen", 3)])
